@@ -821,11 +821,19 @@ class Intrinsics:
                 sc = eng.P.classes["SyncedCollection"]
                 return ("getter", sc.nested[("enable_multithreading", "_thread_lock")])
             return self.null_context(st)
+        # the class-level lock objects are created by class-creation-time code [E-ABC]: their KIND is read from the
+        # real classes - a lock that is not a real (R)Lock there is not one in the model either
+        stypes = info.get("static_types", {})
+        is_lock = lambda n: stypes.get(n) in (None, "RLock", "lock")
         if name == "_locks" and info["supports_threading"]:
             return LocksTableV(ci.name)
         if name == "_cls_lock" and info["supports_threading"]:
+            if threads and not is_lock("_cls_lock"):
+                return self.null_context(st)
             return LockV(F("clslock", IntS, IntS)(z3.IntVal(smt.tid_of(ci.name))), ci.name + "._cls_lock")
         if name == "_BUFFER_LOCK" and info["own"].get("_BUFFER_LOCK") is not None:
+            if threads and info.get("threading_active", True) and not is_lock("_BUFFER_LOCK"):
+                return self.null_context(st)
             if threads:
                 return LockV(F("bufferlock", IntS, IntS)(z3.IntVal(smt.tid_of(ci.name))), ci.name + "._BUFFER_LOCK")
             return self.null_context(st)
